@@ -712,14 +712,24 @@ func rootAlloc(v ssa.Value) *ssa.Alloc {
 func (st *State) localsEnv() func(string) (Val, bool) {
 	fr := st.fr
 	return func(name string) (Val, bool) {
+		// among the live variables of that name, the most recently created one
+		// (innermost scope / current loop) wins
 		var best *ssa.Alloc
-		for v := range fr.regs {
+		bestCell := -1
+		for v, rv := range fr.regs {
 			a, ok := v.(*ssa.Alloc)
-			if !ok || a.Comment != name {
+			if !ok || a.Comment != name || rv.P == nil {
 				continue
 			}
-			if best == nil || a.Pos() > best.Pos() {
-				best = a
+			id := 0
+			if rv.P.Kind == pkCell {
+				if _, live := st.cells[rv.P.Cell]; !live {
+					continue
+				}
+				id = rv.P.Cell
+			}
+			if best == nil || id > bestCell {
+				best, bestCell = a, id
 			}
 		}
 		if best == nil {
@@ -857,6 +867,24 @@ func (e *Engine) enterLoop(st *State, li *loopInfo, from *ssa.BasicBlock, k cont
 			}
 		}
 	}
+	if ls != nil {
+		for _, g := range ls.IterGhosts {
+			env := st.specEnv("iteration ghost")
+			func() {
+				defer func() {
+					if r := recover(); r != nil {
+						if se, ok := r.(specError); ok {
+							st.bindFail(fmt.Sprintf("%sghost[loop %d %s]", prefix, li.ordinal, g.Name), fmt.Errorf("%s", se.msg))
+							return
+						}
+						panic(r)
+					}
+				}()
+				st.ghost["$iter$"+g.Name] = env.eval(g.Init.Expr)
+				st.ghost[g.Name] = st.ghost["$iter$"+g.Name]
+			}()
+		}
+	}
 	st.fr.active[li.header] = true
 	// decreases: remember the measure at the loop head
 	if ls != nil && ls.Decreases != nil {
@@ -918,6 +946,16 @@ func (e *Engine) backEdge(st *State, li *loopInfo) {
 		}
 		st.obligeNamed(name, "inv-pres", st.posOf(li.header.Instrs[0]), t, inv.Text)
 	}
+	for i, ie := range ls.IterEnsures {
+		env := st.specEnv("iteration ensures")
+		t, err := st.evalClause(env, ie)
+		name := fmt.Sprintf("%siter[loop %d]#%d", prefix, li.ordinal, i+1)
+		if err != nil {
+			st.bindFail(name, err)
+			continue
+		}
+		st.obligeNamed(name, "iter", st.posOf(li.header.Instrs[0]), t, "every iteration: "+ie.Text)
+	}
 	if ls.Decreases != nil {
 		if m0, ok := st.ghost[fmt.Sprintf("$measure%d", li.ordinal)]; ok {
 			env := st.specEnv("decreases")
@@ -944,11 +982,7 @@ func (e *Engine) backEdge(st *State, li *loopInfo) {
 // the heap components the body may write.
 func (e *Engine) dryRun(st *State, li *loopInfo) []string {
 	d := st.clone()
-	d.dry = &dryInfo{keys: map[string]bool{}}
-	if st.dry != nil {
-		d.dry = st.dry // nested: accumulate into the outer collection as well
-		d.dry = &dryInfo{keys: map[string]bool{}}
-	}
+	d.dry = &dryInfo{keys: map[string]bool{}, loop: li, fr: st.fr.fn}
 	info := d.dry
 	// havoc stored cells first so that constant folding cannot hide a branch
 	for _, a := range li.allocs {
@@ -999,6 +1033,9 @@ func (e *Engine) dryRun(st *State, li *loopInfo) []string {
 func (e *Engine) jump(st *State, from, to *ssa.BasicBlock, k cont) {
 	if st.dead {
 		return
+	}
+	if st.dry != nil && st.dry.loop != nil && st.dry.fr == st.fr.fn && !st.dry.loop.body[to] {
+		return // the dry run only covers the loop body
 	}
 	loops := e.loopsOf(st.fr.fn)
 	// leaving loops
@@ -1179,7 +1216,7 @@ func (e *Engine) step(st *State, instr ssa.Instruction) {
 	case *ssa.MakeSlice:
 		ln := st.get(in.Len).term()
 		cp := st.get(in.Cap).term()
-		st.oblige(in, "makeslice", And(Le(I(0), ln), Le(ln, cp), Le(cp, I(1<<47))), "make: 0 <= len <= cap and the size is allocatable")
+		st.oblige(in, "makeslice", And(Le(I(0), ln), Le(ln, cp), Le(cp, I(maxElemsOf(in.Type())))), "make: 0 <= len <= cap and the size is allocatable")
 		e.hookAllocBound(st, in, ln, cp)
 		ref := st.newRef()
 		elem := in.Type().Underlying().(*types.Slice).Elem()
